@@ -53,6 +53,9 @@ def gen_graph(rng):
 def gen(tier, rng, harness=None, driver=None):
     # definitions replaced between two prints (the list keeps its length): numbered, unique, referred to by ID
     repl = ["!md.replace %d %d" % (n, i) for n in (1, 2, 3, 4) for i in range(n)]
+    from . import catalog as _c20
+    def _hx(x): return (x if isinstance(x, bytes) else x.encode()).hex()
+    repl += ["!mod.keeps %s %s" % (_hx("\x1f".join(f)), _hx(t)) for n, t, f in _c20.round20_entries() if n.startswith("diexpression.")]
     # specialised debug-info nodes: every field that references a numbered node must print that node's ID (`scope: !91`, `expr: !97`, ...),
     # and inline nodes must stay inline (the one-construct catalogue of C01, here for its reference fields)
     from . import catalog
@@ -155,7 +158,8 @@ def nontrivial(ln, model_out):
 
 def search(ln, a, b, harness, driver):
     p = ln.split()
-    if p[0].startswith("meta."):
+    if not p[0].lstrip("!").startswith(("md.ids", "md.uniq", "md.assign")) or len(p) < 2 or not all(t.lstrip("-").isdigit() for t in p[1].split(",") if t and t != "-"):
+        # (a disagreement on another op family — meta.*, di.*, mod.*: the op itself is the replay)
         return {"ops": [ln], "impl": [a], "model": [b]}
     ids = [int(x) for x in p[1].split(",")] if p[1] != "-" else []
     seen, out = set(), []
